@@ -50,10 +50,67 @@ NEEDS = {
              "fit_predict call (stale labels_ from the first)",
     "C19-a": "Dunn index sums every cluster in min_safe_uint(2 * size of the FIRST cluster): needs a cluster order that "
              "is not largest-first with sizes straddling 127/255",
+    "C01-b": "refine_inplace shrinks the list of clusters to split to the multi-member ones but still skips the first "
+             "n_largest clusters for re-insertion: needs n_largest >= 2 with a singleton among the n largest clusters; "
+             "that singleton's label disappears",
+    "C01-c": "a memoised size-sorted leaf list invalidated at the END of fit(): needs a clusters query, then a fit that "
+             "fails part-way, then another query (rows inserted before the failure are missing)",
+    "C02-c": "merge_subcluster widens the sum dtype only when old_n sits exactly at the dtype maximum: needs a merge of "
+             "two multi-member clusters (recluster / refine / rebuild from buffers) whose sizes jump over 255",
+    "C03-b": "exact duplicates of a leaf centroid are absorbed without consulting the merge criterion: needs never-merge, "
+             "or a raised threshold, and a fingerprint equal to the centroid of a looser cluster",
+    "C04-b": "pages are released for row sizes that do not divide the 2 MiB block (rows per block rounded down): needs a "
+             ".npy with rows > 128 bytes not dividing 2 MiB and more than one block; releases run ahead of the cursor",
+    "C05-b": "the next round globs only uint08/uint16 suffixes: needs a cluster of >= 65536 members at a hand-off (uint32 "
+             "buffer file never read; its members vanish)",
+    "C05-c": "the merging round sorts the input paths: needs split-after-midsection, >= 1 midsection round and input "
+             "files GIVEN in an order that is not their sorted-name order",
+    "C06-b": "_InitialRound keeps one tree and restores the criterion with set_merge (which keeps the refinement's "
+             "tolerance): needs a tolerance criterion, tolerance != 0.05, full refinement and a worker that handles "
+             "more than one file (serial run or n_files > 4 x processes)",
+    "C07-b": "a fingerprint equal to the closest leaf centroid is absorbed without the merge criterion: needs a low "
+             "threshold and a centroid-equal fingerprint that lowers the iSIM below it, or never-merge",
+    "C08-b": "the tracking entry is not updated when the inserted centroid equals it exactly: needs depth >= 2 and an "
+             "exact duplicate of a tracked centroid, no split",
+    "C08-c": "the centroid cache of a split is filled before the 'seed is closest to itself' correction: needs an "
+             "all-zero centroid (or all-identical centroids) in the node that overflows",
+    "C09-b": "n_largest=None default resolved with `or 1`: needs an explicit refine_inplace(n_largest=0), which then "
+             "breaks the largest cluster",
+    "C10-b": "radius criterion accepts as soon as the diameter statistic passes: needs a sparse / incoherent merged "
+             "cluster and a threshold between its radius complement and its iSIM",
+    "C11-b": "iSIM squares are summed in uint32 for n <= 65535: needs sum of squared column sums >= 2^32 (e.g. 2048 dense "
+             "columns with n >= 1500)",
+    "C12-b": "complementary similarity vectorised with a single global all-zero guard: needs >= 3 rows of which exactly "
+             "one is non-empty (NaN instead of 1; medoid picks it)",
+    "C13-b": "C++ centroid threshold computed in float (0.5f): needs n_samples > 2^24 with a column sum within float "
+             "rounding of n/2",
+    "C13-c": "C++ array-vs-vector Tanimoto returns 1 for two empty fingerprints (fallback returns 0): needs an all-zero "
+             "row against an all-zero vector",
+    "C14-c": "clusters.pkl is renamed into place before the centroids file is written: needs a failure while writing "
+             "the centroids (save_centroids on) in the final round",
+    "C15-b": "bb run skips set_merge when refine criterion == initial criterion: needs equal criteria, refine or "
+             "recluster rounds > 0 and a non-zero --refine-threshold-change",
+    "C16-b": "fps-split --max-fps pads the part index to the width of N//m - 1: needs N % m != 0 and N // m an exact power "
+             "of ten (parts then sort out of order)",
+    "C16-c": "the per-file output name accumulates on the pool worker object: needs more output files than 4 x processes "
+             "in bb fps-from-smiles (a worker then handles several files)",
+    "C17-b": "`self.tolerance or 0.05`: needs a previously chosen tolerance of exactly 0.0 and a set_merge / criterion "
+             "setter that names only a criterion",
+    "C18-b": "subcluster_centers_ recomputed as 2*sums >= n in the narrow dtype of the stacked sums: needs a cluster of "
+             "128..255 members (none larger) with a majority bit",
+    "C18-c": "predict/transform use a uint8 matmul for the intersections: needs a query sharing >= 256 on-bits with a "
+             "centroid (n_features > 255, dense fingerprints)",
+    "C19-b": "cluster_analysis slices first..last when last - first == size - 1: needs an in-memory / single-file "
+             "provider and a NON-ascending member list satisfying that coincidence",
+    "C19-c": "CHI sums every cluster in its own minimal dtype and adds them with Python sum(): needs clusters each below "
+             "256 members whose column sums together exceed 255 before a bigger cluster widens the accumulator",
+    "C20-b": "the new sample is rounded to 4 decimals before the comparison with the stored peak: needs two samples in the "
+             "upper half of one 1e-4 GiB bucket, the later one smaller (the recorded peak decreases)",
     "C20-a": "the monitor overwrites max-rss.txt in place and truncates afterwards: needs the reader to run between "
              "the write of a shorter value and the truncate (or before the first write)",
 }
-EXTRA = {"C17-a": ["C10"], "C12-a": ["C07"], "C02-a": ["C12"], "C14-b": ["C05"]}
+EXTRA = {"C17-a": ["C10"], "C12-a": ["C07"], "C02-a": ["C12"], "C14-b": ["C05"], "C03-b": ["C07"], "C07-b": ["C03"],
+         "C05-c": ["C09"], "C02-c": ["C08"]}
 
 
 def sh(cmd, **kw):
